@@ -27,7 +27,7 @@ Grow(d, k) ==
    single kind of entry *)
 SimBlock ==
   \E ver \in One(IF 1 \notin Vers THEN 0 ELSE IF hver = 1 \/ 0 \notin Vers \/ RandomElement(1..4) = 1 THEN 1 ELSE 0) :
-  \E n \in One(IF phase = "post" /\ RandomElement(1..2) = 1 THEN RandomElement(1..2) ELSE RandomElement(1..SimMaxOps)) :
+  \E n \in One(IF phase = "post" /\ RandomElement(1..2) = 1 THEN RandomElement(0..2) ELSE RandomElement(0..SimMaxOps)) :
   \E d \in One(Grow({}, n)) :
     Block(d, ver) /\ hver' = ver
 
@@ -49,7 +49,10 @@ SimNext ==
     [] phase = "old" ->
          \E k1 \in One(RandomElement(0..60)), k2 \in One(RandomElement(0..60)), n \in One(RandomElement(0..2)) :
            MigrateAll(IF n = 0 THEN <<>> ELSE IF n = 1 THEN <<k1>> ELSE <<k1, k2>>)
-    [] OTHER -> SimBlock
+    [] OTHER ->
+         \E r \in One(RandomElement(1..5)) :
+           IF r = 1 /\ act.name # "Restart" THEN \E g \in One(RandomElement(BOOLEAN)) : Restart(g) /\ UNCHANGED hver
+           ELSE SimBlock
 
 Proj == [truth |-> truth', rec |-> rec', decl |-> decl', height |-> height']
 Step == SimNext /\ hist' = Append(hist, [a |-> act'] @@ Proj)
